@@ -50,6 +50,7 @@ PROPS["C01"] = {
     "units": [
         {"test": "^TestC01Crash$", "quick": {"checks": 5, "shards": 2, "procs": 8, "timeout": 600},
          "thorough": {"checks": 60, "shards": 4, "procs": 4, "timeout": 7200}},
+        {"test": "^TestC01ConcAck$", "quick": {"checks": 40, "shards": 4}, "thorough": {"checks": 1500, "shards": 8, "timeout": 7200}},
     ],
 }
 
@@ -62,8 +63,10 @@ PROPS["C07"] = {
     "assumptions": CRASH_ASSUMPTIONS,
     "required_classes": ["crash_images", "images_with_unstable_acked_ops_pending"],
     "units": [
+        {"test": "^TestRegressC07$", "norapid": True, "quick": {"shards": 1}, "thorough": {"shards": 1}},
         {"test": "^TestC07Crash$", "quick": {"checks": 5, "shards": 2, "procs": 8, "timeout": 600},
          "thorough": {"checks": 60, "shards": 4, "procs": 4, "timeout": 7200}},
+        {"test": "^TestC07ConcAck$", "quick": {"checks": 40, "shards": 4}, "thorough": {"checks": 1500, "shards": 8, "timeout": 7200}},
     ],
 }
 
@@ -77,6 +80,7 @@ PROPS["C02"] = {
     "assumptions": COMMON_ASSUMPTIONS,
     "required_classes": ["case_with_restart", "case_crossing_indirection", "case_via_rpc", "case_failed_op_then_more"],
     "units": [
+        {"test": "^TestRegressC02$", "norapid": True, "quick": {"shards": 1}, "thorough": {"shards": 1}},
         {"test": "^TestC02Seq$", "quick": {"checks": 120, "shards": 8}, "thorough": {"checks": 1500, "shards": 12, "steps": 80}},
         {"test": "^TestC02Full$", "quick": {"checks": 40, "shards": 4, "steps": 40}, "thorough": {"checks": 500, "shards": 8, "steps": 60}},
     ],
@@ -109,6 +113,7 @@ PROPS["C05"] = {
     "assumptions": CRASH_ASSUMPTIONS,
     "required_classes": ["history_that_freed_indirect_blocks", "crash_images_with_half_freed_inode", "recovered_images_with_followup_check", "removed_file_with_about_journal_size_blocks", "full_disk_history_emptied_and_counted"],
     "units": [
+        {"test": "^TestRegressC05$", "norapid": True, "quick": {"shards": 1}, "thorough": {"shards": 1}},
         {"test": "^TestC05Seq$", "quick": {"checks": 40, "shards": 8}, "thorough": {"checks": 600, "shards": 12, "steps": 50}},
         {"test": "^TestC05Full$", "quick": {"checks": 40, "shards": 4, "steps": 40}, "thorough": {"checks": 600, "shards": 8, "steps": 60}},
         {"test": "^TestC05Crash$", "quick": {"checks": 4, "shards": 2, "procs": 4, "timeout": 600},
@@ -126,6 +131,7 @@ PROPS["C12"] = {
     "assumptions": CRASH_ASSUMPTIONS,
     "required_classes": ["case_reusing_freed_blocks", "case_unaligned_shrink_then_growth", "fsck_free_block_scans", "crash_images"],
     "units": [
+        {"test": "^TestRegressC12$", "norapid": True, "quick": {"shards": 1}, "thorough": {"shards": 1}},
         {"test": "^TestC12Seq$", "quick": {"checks": 80, "shards": 6}, "thorough": {"checks": 1200, "shards": 12, "steps": 60}},
         {"test": "^TestC12Full$", "quick": {"checks": 40, "shards": 4, "steps": 40}, "thorough": {"checks": 500, "shards": 8, "steps": 60}},
         {"test": "^TestC12Crash$", "quick": {"checks": 4, "shards": 2, "procs": 4, "timeout": 600},
@@ -143,6 +149,7 @@ PROPS["C19"] = {
     "assumptions": COMMON_ASSUMPTIONS,
     "required_classes": ["boundary_requests", "requests_within_2_of_a_limit"],
     "units": [
+        {"test": "^TestRegressC19$", "norapid": True, "quick": {"shards": 1}, "thorough": {"shards": 1}},
         {"test": "^TestC19Grid$", "norapid": True, "quick": {"shards": 2}, "thorough": {"shards": 6}},
     ],
 }
@@ -157,6 +164,7 @@ PROPS["C08"] = {
     "assumptions": COMMON_ASSUMPTIONS,
     "required_classes": ["stale_sweeps_of_a_reused_inode_number", "crash_recoveries", "inode_exhaustion_files_created", "handles_seen_while_the_disk_was_cut_off", "cases_where_the_new_directory_reused_the_inode_number"],
     "units": [
+        {"test": "^TestRegressC08$", "norapid": True, "quick": {"shards": 1}, "thorough": {"shards": 1}},
         {"test": "^TestC08Handles$", "quick": {"checks": 100, "shards": 8, "steps": 40}, "thorough": {"checks": 1500, "shards": 12, "steps": 60}},
         {"test": "^TestC08Exhaust$", "norapid": True, "quick": {"shards": 1}, "thorough": {"shards": 1}},
         {"test": "^TestC08GateCrash$", "quick": {"checks": 60, "shards": 4}, "thorough": {"checks": 2000, "shards": 8}},
@@ -173,6 +181,7 @@ PROPS["C11"] = {
     "assumptions": COMMON_ASSUMPTIONS,
     "required_classes": ["hostile_calls", "case_via_rpc"],
     "units": [
+        {"test": "^TestRegressC11$", "norapid": True, "quick": {"shards": 1}, "thorough": {"shards": 1}},
         {"test": "^TestC11Hostile$", "oom_is_violation": True, "quick": {"checks": 100, "shards": 8, "steps": 40}, "thorough": {"checks": 2500, "shards": 12, "steps": 60}},
         {"test": "^FuzzC11Args$", "fuzz": True, "oom_is_violation": True, "quick": {"shards": 1}, "thorough": {"shards": 1, "fuzztime": 600, "procs": 16, "timeout": 1500}},
     ],
@@ -187,6 +196,7 @@ PROPS["C13"] = {
     "assumptions": COMMON_ASSUMPTIONS,
     "required_classes": ["session_of_3_or_more_pages", "session_with_mutations_between_pages", "session_readdirplus", "resumed_from_an_earlier_cookie", "enumerations_during_concurrent_updates"],
     "units": [
+        {"test": "^TestRegressC13$", "norapid": True, "quick": {"shards": 1}, "thorough": {"shards": 1}},
         {"test": "^TestC13Paging$", "quick": {"checks": 80, "shards": 8}, "thorough": {"checks": 1500, "shards": 12}},
         {"test": "^TestC13Concurrent$", "quick": {"checks": 60, "shards": 4}, "thorough": {"checks": 1000, "shards": 8}},
     ],
@@ -201,6 +211,7 @@ PROPS["C17"] = {
     "assumptions": COMMON_ASSUMPTIONS,
     "required_classes": ["seq_with_rejected_write_or_setattr", "seq_with_restart", "conc_with_overlap", "crash_images"],
     "units": [
+        {"test": "^TestRegressC17$", "norapid": True, "quick": {"shards": 1}, "thorough": {"shards": 1}},
         {"test": "^TestC17Seq$", "oom_is_violation": True, "quick": {"checks": 60, "shards": 8}, "thorough": {"checks": 1500, "shards": 12}},
         {"test": "^TestC17Conc$", "quick": {"checks": 100, "shards": 4}, "thorough": {"checks": 2500, "shards": 8}},
         {"test": "^TestC17Crash$", "quick": {"checks": 8, "shards": 2, "procs": 4}, "thorough": {"checks": 150, "shards": 4, "procs": 4, "timeout": 7200}},
